@@ -65,7 +65,7 @@ theorem padding_coprime (nb size d : Nat) (hd1 : 1 ≤ d) (hd2 : d + 1 < nb) (hp
 section
 variable {β : Type}
 
-theorem le_foldl_max (lists : List (List (List β))) : ∀ (init : Nat),
+theorem le_foldl_max {γ : Type} (lists : List (List γ)) : ∀ (init : Nat),
     init ≤ lists.foldl (fun acc l => max acc l.length) init ∧
     ∀ l ∈ lists, l.length ≤ lists.foldl (fun acc l => max acc l.length) init := by
   induction lists with
